@@ -47,6 +47,20 @@ def compile(r: str):
 
         transitions[state_number].sort()
 
+    if expr.null not in state_numbers:
+        # No dead state is reachable (for example '.*'): add it, since
+        # the scanner needs an error state to stop at end of input.
+        error = len(states)
+        state_numbers[expr.null] = error
+        states.append(expr.null)
+        transitions.append(
+            sorted(
+                (first, last, error)
+                for derivative_class in expr.null.derivative_classes()
+                for first, last in derivative_class.ranges
+            )
+        )
+
     accepts = [state.nullable() for state in states]
     error = state_numbers[expr.null]
 
